@@ -541,6 +541,11 @@ func (m *monitor) processBlock(n *node, b *Block, fail bool) {
 		}
 		if !ok {
 			m.nhit(n, "C02", "not-the-proposal", fmt.Sprintf("node %d accepts block %d that differs from the held proposal", n.id, b.idx))
+			if d.MyIndex >= 0 && uint(d.MyIndex) == d.PrimaryIndex {
+				// C15: the primary's own block for its proposal is built from the values it proposed
+				m.tick("C15")
+				m.nhit(n, "C15", "own-block-not-the-proposal", fmt.Sprintf("primary %d of view %d hands over block %d that is not built from the values it proposed", n.id, d.ViewNumber, b.idx))
+			}
 		}
 	}
 	m.tick("C05")
